@@ -13,22 +13,35 @@ INT_RANGE = {'i2': (-2**15, 2**15 - 1), 'i4': (-2**31, 2**31 - 1), 'i8': (-2**63
 YTYPE = {'i2': 'short', 'i4': 'int', 'i8': 'long', 'f4': 'float', 'f8': 'double'}
 
 
-def np_base(col):
+def var_width(col, rows, ci):
+    """Width of a variable-length char column (`char x[]`): the longest string present."""
+    w = 0
+    for r in rows:
+        v = r[ci]
+        for x in (v if col.get('len', 0) else [v]):
+            w = max(w, len(x))
+    return w
+
+
+def np_base(col, width=None):
     k = col['kind']
     if k == 'S':
+        if col.get('var'):
+            return 'S%d' % max(1, width or 0)
         return 'S%d' % col['n']
     if k == 'E':
         return 'S%d' % max(len(v) for v in col['enum'][1])
     return {'i2': '<i2', 'i4': '<i4', 'i8': '<i8', 'f4': '<f4', 'f8': '<f8'}[k]
 
 
-def np_dtype(columns):
+def np_dtype(columns, rows=()):
     dt = []
-    for c in columns:
+    for ci, c in enumerate(columns):
+        w = var_width(c, rows, ci) if c.get('var') else None
         if c.get('len', 0):
-            dt.append((c['name'], np_base(c), (c['len'],)))
+            dt.append((c['name'], np_base(c, w), (c['len'],)))
         else:
-            dt.append((c['name'], np_base(c)))
+            dt.append((c['name'], np_base(c, w)))
     return np.dtype(dt)
 
 
@@ -74,7 +87,7 @@ def to_python(col, v):
 
 
 def to_numpy_rows(columns, rows):
-    a = np.zeros(len(rows), dtype=np_dtype(columns))
+    a = np.zeros(len(rows), dtype=np_dtype(columns, rows))
     for i, row in enumerate(rows):
         for c, v in zip(columns, row):
             k = c['kind']
@@ -165,7 +178,7 @@ def dtype_problems(obj, model):
         if t['name'] not in obj.tables():
             continue
         have = obj[t['name']].dtype
-        want = np_dtype(t['columns'])
+        want = np_dtype(t['columns'], t['rows'])
         for c in t['columns']:
             nm = c['name']
             if nm not in (have.names or ()):
@@ -194,3 +207,59 @@ def first_difference(got, want):
                     if a != b:
                         return 'cell %s[%d].%s: got %r want %r' % (g[0], i, cn, a, b)
     return None
+
+
+def _protect(s):
+    s = str(s)
+    if len(s) == 0 or '#' in s or any(ch.isspace() for ch in s):
+        return '"' + s + '"'
+    return s
+
+
+def render_external(tables, hdr, style=0):
+    """A yanny file as somebody else's tool might have written it (the external
+    actor): same conservative quoting as the library, but with variable-length
+    `char x[]` declarations where a column asks for them.  Independent of pydl."""
+    out = ['#%yanny', '# written by an external tool', '#']
+    for k, v in hdr:
+        out.append('%s %s' % (k, v))
+    out.append('')
+    seen = set()
+    for t in tables:
+        for c in t['columns']:
+            if c['kind'] == 'E' and c['enum'][0] not in seen:
+                seen.add(c['enum'][0])
+                out.append('typedef enum {')
+                vals = c['enum'][1]
+                for i, v in enumerate(vals):
+                    out.append('    %s%s' % (v, ',' if i < len(vals) - 1 else ''))
+                out.append('} %s;' % c['enum'][0])
+                out.append('')
+    for t in tables:
+        out.append('typedef struct {')
+        for c in t['columns']:
+            k = c['kind']
+            if k == 'E':
+                typ = c['enum'][0]
+            elif k == 'S':
+                typ = 'char'
+            else:
+                typ = YTYPE[k]
+            decl = c['name']
+            if c.get('len', 0):
+                decl += '[%d]' % c['len']
+            if k == 'S':
+                decl += '[]' if c.get('var') else '[%d]' % c['n']
+            out.append(('    %s %s;' if style == 0 else '\t%s\t%s;') % (typ, decl))
+        out.append('} %s;' % (t['name'] if style == 0 else t['name'].lower()))
+        out.append('')
+    for t in tables:
+        for r in t['rows']:
+            cells = []
+            for c, v in zip(t['columns'], r):
+                if c.get('len', 0):
+                    cells.append('{' + ' '.join(_protect(x) for x in v) + '}')
+                else:
+                    cells.append(_protect(v))
+            out.append(' '.join([t['name']] + cells))
+    return ('\n'.join(out) + '\n').encode('ascii')
